@@ -638,3 +638,214 @@ Section MulticolR.
     rewrite Hnd, Hsn in R1. lia.
   Qed.
 End MulticolR.
+
+(* ------------------------------------------------------------------ restart form: stream structure (every carrier) *)
+Section StateTok.
+  Context {T : Type} (O : NumOps T).
+  Notation tk := (tok T).
+
+  Lemma line_rest_nums (xs : list T) (r : list tk) : line_rest (map TNum xs ++ TNl :: r) = map TNum xs.
+  Proof. induction xs as [|x xs IH]; cbn [map app line_rest]; [reflexivity|]. rewrite IH. reflexivity. Qed.
+  Lemma line_rest_ints (xs : list Z) (r : list tk) : line_rest (map TInt xs ++ TNl :: r) = map TInt xs.
+  Proof. induction xs as [|x xs IH]; cbn [map app line_rest]; [reflexivity|]. rewrite IH. reflexivity. Qed.
+  Lemma lookup_skip_nums k (xs : list T) (r : list tk) : lookup k (map TNum xs ++ r) = lookup k r.
+  Proof. induction xs as [|x xs IH]; cbn [map app lookup]; auto. Qed.
+
+  Definition conf_of (g : grid T) : list tk := TNl :: get_state_params g.
+
+  Lemma lookup_ncolvars g : lookup KNColvars (conf_of g) = Some [TInt (Z.of_nat (gnd g))].
+  Proof. reflexivity. Qed.
+  Lemma lookup_lower g : lookup KLower (conf_of g) = Some (map TNum (gr_lower g)).
+  Proof. unfold conf_of, get_state_params. cbn [app lookup gkey_eqb]. rewrite line_rest_nums. reflexivity. Qed.
+  Lemma lookup_upper g : lookup KUpper (conf_of g) = Some (map TNum (gr_upper g)).
+  Proof.
+    unfold conf_of, get_state_params. cbn [app lookup gkey_eqb]. rewrite lookup_skip_nums.
+    cbn [app lookup gkey_eqb]. rewrite line_rest_nums. reflexivity.
+  Qed.
+  Lemma lookup_widths g : lookup KWidths (conf_of g) = Some (map TNum (gr_width g)).
+  Proof.
+    unfold conf_of, get_state_params. cbn [app lookup gkey_eqb]. rewrite lookup_skip_nums.
+    cbn [app lookup gkey_eqb]. rewrite lookup_skip_nums. cbn [app lookup gkey_eqb].
+    rewrite line_rest_nums. reflexivity.
+  Qed.
+  Lemma lookup_sizes g : lookup KSizes (conf_of g) = Some (map TInt (gr_nx g)).
+  Proof.
+    unfold conf_of, get_state_params. cbn [app lookup gkey_eqb]. rewrite lookup_skip_nums.
+    cbn [app lookup gkey_eqb]. rewrite lookup_skip_nums. cbn [app lookup gkey_eqb].
+    rewrite lookup_skip_nums. cbn [app lookup gkey_eqb].
+    change [TNl] with (@TNl T :: []). rewrite line_rest_ints. reflexivity.
+  Qed.
+
+  Lemma get_vec_found k conf (xs cur : list T) : lookup k conf = Some (map TNum xs) ->
+    xs <> [] -> length cur = length xs -> get_vec O k conf cur = Some xs.
+  Proof.
+    intros H Hne Hl. unfold get_vec. rewrite H.
+    destruct xs as [|x xs]; [congruence|]. cbn [map]. change (TNum x :: map TNum xs) with (map (@TNum T) (x :: xs)).
+    rewrite Hl, <- (app_nil_r (map TNum (x :: xs))), take_nums_app. reflexivity.
+  Qed.
+  Lemma get_ints_found k (conf : list tk) (xs cur : list Z) : lookup k conf = Some (map TInt xs) ->
+    xs <> [] -> length cur = length xs -> get_ints k conf cur = Some xs.
+  Proof.
+    intros H Hne Hl. unfold get_ints. rewrite H.
+    destruct xs as [|x xs]; [congruence|]. cbn [map]. change (TInt x :: map TInt xs) with (map (@TInt T) (x :: xs)).
+    rewrite Hl, <- (app_nil_r (map TInt (x :: xs))), take_ints_app. reflexivity.
+  Qed.
+
+  Definition no_brace (t : tk) : bool := match t with TOpen | TClose => false | _ => true end.
+  Lemma until_close_app (b r : list tk) : forallb no_brace b = true -> until_close (b ++ TClose :: r) = Some (b, r).
+  Proof.
+    induction b as [|t b IH]; intros H; cbn [app until_close]; [reflexivity|].
+    cbn [forallb] in H. apply andb_true_iff in H as [Ht Hb]. rewrite (IH Hb).
+    destruct t; try reflexivity; discriminate.
+  Qed.
+  Lemma no_brace_nums (xs : list T) : forallb no_brace (map TNum xs) = true.
+  Proof. induction xs; cbn; auto. Qed.
+  Lemma no_brace_ints (xs : list Z) : forallb no_brace (map (@TInt T) xs) = true.
+  Proof. induction xs; cbn; auto. Qed.
+  Lemma no_brace_conf g : forallb no_brace (conf_of g) = true.
+  Proof.
+    unfold conf_of, get_state_params.
+    repeat first [rewrite forallb_app | rewrite no_brace_nums | rewrite no_brace_ints
+                 | progress (cbn [forallb no_brace andb app])].
+    reflexivity.
+  Qed.
+
+  Lemma read_block_written g (rest : list tk) :
+    read_block (write_restart g ++ rest) = Some (conf_of g, TNl :: write_raw 3 g ++ rest).
+  Proof.
+    unfold write_restart, read_block. cbn [app skip_nl].
+    rewrite <- app_assoc. cbn [app].
+    change (TNl :: get_state_params g ++ TClose :: TNl :: write_raw 3 g ++ rest)
+      with (conf_of g ++ TClose :: TNl :: write_raw 3 g ++ rest).
+    rewrite until_close_app by apply no_brace_conf. reflexivity.
+  Qed.
+
+  Lemma zip4_nx : forall (nx : list Z) (l u w : list T),
+    length l = length nx -> length u = length nx -> length w = length nx ->
+    map (fun e => fst (fst (fst e))) (zip4 nx l u w) = nx /\ length (zip4 nx l u w) = length nx.
+  Proof.
+    induction nx as [|n ns IH]; intros [|a ls] [|b us] [|c ws] H1 H2 H3; try discriminate; [split; reflexivity|].
+    cbn [zip4 map fst length] in *. destruct (IH ls us ws) as [A B]; try lia. rewrite A, B. split; reflexivity.
+  Qed.
+
+  Lemma params_unchanged_nx : forall cvs (old new : list (Z * T * T * T)),
+    length old = length cvs -> length new = length cvs -> params_changed O cvs old new = false ->
+    map (fun e => fst (fst (fst e))) old = map (fun e => fst (fst (fst e))) new.
+  Proof.
+    induction cvs as [|c cs IH]; intros [|[[[on ol] ou] ow] os] [|[[[n l] u] w] ns] H1 H2 H; try discriminate; [reflexivity|].
+    cbn [params_changed] in H. apply orb_false_iff in H as [Hd Hr].
+    unfold dim_changed in Hd. apply orb_false_iff in Hd as [Hd _]. apply orb_false_iff in Hd as [Hd _].
+    apply orb_false_iff in Hd as [Hd _]. apply negb_false_iff, Z.eqb_eq in Hd.
+    cbn [map fst length] in *. rewrite Hd, (IH os ns) by (auto; lia). reflexivity.
+  Qed.
+End StateTok.
+
+(* ------------------------------------------------------------------ restart form over R *)
+Section StateR.
+  Local Open Scope R_scope.
+  Notation tk := (tok R).
+  Notation cvi := (cvinfo (T := R)).
+
+  (* a grid as init_from_boundaries leaves it for its variables: a whole number of bins of positive width
+     between the boundaries, periodicity flags as the variables report them for these boundaries *)
+  Inductive dims_ok : list cvi -> list Z -> list R -> list R -> list R -> list bool -> Prop :=
+  | dims_nil : dims_ok [] [] [] [] [] []
+  | dims_cons c n l u w p cs ns ls us ws ps :
+      (0 < n)%Z -> 0 < w -> u = l + IZR n * w -> p = cv_periodic_boundaries Rops c l u ->
+      dims_ok cs ns ls us ws ps -> dims_ok (c :: cs) (n :: ns) (l :: ls) (u :: us) (w :: ws) (p :: ps).
+  Definition grid_consistent (cvs : list cvi) (g : grid R) : Prop :=
+    dims_ok cvs (gr_nx g) (gr_lower g) (gr_upper g) (gr_width g) (gr_per g).
+
+  Lemma dims_lengths cvs nx l u w p : dims_ok cvs nx l u w p ->
+    length cvs = length nx /\ length l = length nx /\ length u = length nx /\ length w = length nx /\
+    length p = length nx /\ all_pos nx.
+  Proof.
+    intros H; induction H as [|c n l u w p cs ns ls us ws ps Hn Hw Hu Hp _ IH]; cbn [length].
+    - repeat split; constructor.
+    - destruct IH as (A & B & C & D & E & F). repeat split; try lia. constructor; auto.
+  Qed.
+
+  Lemma init_dim_consistent c n l w : (0 < n)%Z -> 0 < w ->
+    init_dim Rops c l (l + IZR n * w) w = (n, l + IZR n * w, cv_periodic_boundaries Rops c l (l + IZR n * w)).
+  Proof.
+    intros Hn Hw. unfold init_dim.
+    assert (Hnb : ndiv Rops (nsub Rops (l + IZR n * w) l) w = IZR n) by (cbn; field; lra).
+    rewrite Hnb.
+    assert (Hfl : nfloor Rops (nadd Rops (IZR n) (nhalf Rops)) = n).
+    { unfold nhalf; cbn. apply Zfloor_spec. lra. }
+    rewrite Hfl, not_far_self. reflexivity.
+  Qed.
+
+  Lemma init_bounds_consistent cvs nx l u w p : dims_ok cvs nx l u w p ->
+    map (fun e => fst (fst e)) (init_bounds Rops cvs l u w) = nx /\
+    map (fun e => snd (fst e)) (init_bounds Rops cvs l u w) = u /\
+    map snd (init_bounds Rops cvs l u w) = p.
+  Proof.
+    intros H; induction H as [|c n l u w p cs ns ls us ws ps Hn Hw Hu Hp _ IH]; [repeat split|].
+    cbn [init_bounds map]. subst u. rewrite init_dim_consistent by auto. cbn [fst snd].
+    destruct IH as (A & B & C). rewrite A, B, C, Hp. repeat split.
+  Qed.
+
+  Lemma read_raw_skip_nl (g : grid R) toks : read_raw Rops g (TNl :: toks) = read_raw Rops g toks.
+  Proof. reflexivity. Qed.
+
+  (* read_restart (write_restart g) = g, whatever the receiving grid's current sizes, boundaries, widths
+     and data are (same variables, same multiplicity): both when the definition in the state agrees with
+     the current one and when it does not (grid expanded during the run: the array is re-allocated) *)
+  Lemma state_roundtrip (cvs : list cvi) (g g0 : grid R) rest :
+    grid_wf g -> grid_consistent cvs g ->
+    grid_wf g0 -> gr_mult g0 = gr_mult g -> gnd g0 = gnd g ->
+    length (gr_lower g0) = gnd g -> length (gr_upper g0) = gnd g -> length (gr_width g0) = gnd g ->
+    gr_per g0 = gr_per g ->
+    read_restart Rops cvs g0 (write_restart g ++ rest) = Some (g, strip rest).
+  Proof.
+    intros Hwf Hc Hwf0 Hm Hnd Hl0 Hu0 Hw0 Hper.
+    pose proof (dims_lengths _ _ _ _ _ _ Hc) as (L1 & L2 & L3 & L4 & L5 & Hpos).
+    pose proof Hwf as (Hmp & _ & Hne & Hdl).
+    unfold read_restart. rewrite read_block_written.
+    unfold parse_params. rewrite lookup_ncolvars. rewrite Hnd, Z.eqb_refl. cbn [negb].
+    assert (NE : forall (A : Type) (xs : list A), length xs = length (gr_nx g) -> xs <> []).
+    { intros A xs Hx Hxs. subst xs. destruct (gr_nx g); [congruence | discriminate]. }
+    unfold gnd in *.
+    rewrite (get_vec_found Rops KLower _ (gr_lower g)) by (auto using lookup_lower; lia).
+    rewrite (get_vec_found Rops KUpper _ (gr_upper g)) by (auto using lookup_upper; lia).
+    rewrite (get_vec_found Rops KWidths _ (gr_width g)) by (auto using lookup_widths; lia).
+    rewrite (get_ints_found KSizes _ (gr_nx g)) by (auto using lookup_sizes).
+    set (np := match gr_nx g0 with
+               | [] => true
+               | _ :: _ => params_changed Rops cvs (zip4 (gr_nx g0) (gr_lower g0) (gr_upper g0) (gr_width g0))
+                                          (zip4 (gr_nx g) (gr_lower g) (gr_upper g) (gr_width g))
+               end).
+    destruct np eqn:Enp.
+    - (* the definition changed: sizes recomputed from the boundaries, array re-allocated *)
+      destruct (init_bounds_consistent _ _ _ _ _ _ Hc) as (A & B & C).
+      rewrite A, B, C, (all_pos_forallb _ Hpos). rewrite read_raw_skip_nl.
+      rewrite raw_roundtrip; auto.
+      + unfold set_data; cbn [gr_mult gr_nx gr_lower gr_upper gr_width gr_per]. rewrite Hm.
+        destruct g; reflexivity.
+      + repeat split; cbn [gr_mult gr_nx gr_data]; auto; try lia.
+        unfold zeros. rewrite repeat_length. reflexivity.
+      + split; cbn [gr_mult gr_nx]; auto.
+    - (* same definition: the array is kept and overwritten by the data *)
+      assert (Hnx : gr_nx g0 = gr_nx g).
+      { unfold np in Enp. destruct (gr_nx g0) as [|n0' ns0] eqn:E0; [discriminate|]. rewrite <- E0 in *.
+        destruct (zip4_nx (gr_nx g0) (gr_lower g0) (gr_upper g0) (gr_width g0)) as [Z1 Z2]; try lia.
+        destruct (zip4_nx (gr_nx g) (gr_lower g) (gr_upper g) (gr_width g)) as [Z3 Z4]; try lia.
+        rewrite <- Z1, <- Z3. apply (params_unchanged_nx Rops cvs); auto; lia. }
+      rewrite read_raw_skip_nl. rewrite raw_roundtrip; auto.
+      + unfold set_data; cbn [gr_mult gr_nx gr_lower gr_upper gr_width gr_per]. rewrite Hm, Hper.
+        destruct g; reflexivity.
+      + destruct Hwf0 as (W1 & W2 & W3 & W4). repeat split; cbn [gr_mult gr_nx gr_data]; auto; try lia.
+        rewrite W4, Hnx. reflexivity.
+      + split; cbn [gr_mult gr_nx]; auto.
+  Qed.
+
+  (* the parameters alone: parse_params (get_state_params g) gives g's sizes, boundaries and widths *)
+  Lemma short_state_rejected (cvs : list cvi) (g0 g1 : grid R) (conf s : list tk) toks :
+    read_block toks = Some (conf, s) -> parse_params Rops cvs g0 conf = Some g1 -> grid_wf g1 ->
+    (lead Rops (strip s) < length (gr_data g1))%nat ->
+    read_restart Rops cvs g0 toks = None.
+  Proof.
+    intros Hb Hp Hwf Hlt. unfold read_restart. rewrite Hb, Hp. apply raw_short_rejected; auto.
+  Qed.
+End StateR.
